@@ -1069,8 +1069,9 @@ def finish(prop, tier, seed, results, extra, t0, level, write_evidence=True):
     wall = time.time() - t0
     ev = build_evidence(prop, tier, seed, results, extra, wall, n_viol, level, sorted(known_hit))
     if write_evidence:
-        os.makedirs(os.path.join(VERIF, "evidence"), exist_ok=True)
-        json.dump(ev, open(os.path.join(VERIF, "evidence", f"{prop}.json"), "w"), indent=1)
+        evdir = os.environ.get("VERIF_EVIDENCE_DIR") or os.path.join(VERIF, "evidence")   # seeded-change runs write elsewhere
+        os.makedirs(evdir, exist_ok=True)
+        json.dump(ev, open(os.path.join(evdir, f"{prop}.json"), "w"), indent=1)
     nh = sum(1 for r in results if r["status"] == "holds")
     print(f"{prop} [{tier}] obligations={len(results)} holds={nh} violations={n_viol} known={len(known_hit)} "
           f"inconclusive={len(incon)} paths={sum(r['paths'] for r in results)} queries={sum(r['queries'] for r in results)} "
